@@ -1049,3 +1049,16 @@ mod tests {
         }
     }
 }
+
+/// Verification hook (only compiled with `--cfg rten_verif`).
+#[cfg(rten_verif)]
+impl Avx512Int8Kernel {
+    /// The AVX-512 int8 kernel with the VNNI dot product disabled, ie. the
+    /// `vpmaddubsw` code path taken on AVX-512 systems without VNNI.
+    pub fn new_without_vnni() -> Option<Self> {
+        Avx512Isa::new().map(|isa| Avx512Int8Kernel {
+            isa,
+            vnni_dot: None,
+        })
+    }
+}
